@@ -1,3 +1,4 @@
+import Mixin.Facts.ExpectedC32
 import Mixin.Model.Base58
 import Mixin.Model.Keys
 import Mixin.Proofs.Base58
